@@ -7,6 +7,9 @@ People == {"alice", "bob", "owner0", "col0", "mallory"}
 Auths == {{p} : p \in People} \cup {{}}
 Acts(s) == {[name |-> n, sender |-> "bob", spender |-> "alice", token |-> t, amt |-> 1, auth |-> au] :
                 n \in {"PayGas", "AddGas"}, t \in Tokens, au \in Auths}
+           \* the service's own address named as spender by an outside caller
+           \cup {[name |-> n, sender |-> "bob", spender |-> "gs", token |-> t, amt |-> 1, auth |-> au] :
+                n \in {"PayGas", "AddGas"}, t \in Tokens, au \in {{}, {"mallory"}}}
 InitState == [bal |-> [t \in Tokens |-> [x \in Accts |-> IF x = "alice" THEN 2 ELSE 0]], collector |-> "col0", owner |-> "owner0"]
 Init == st = InitState
 Next == \E a \in Acts(st) : st' = Apply(st, a).post
